@@ -45,7 +45,18 @@ func main() {
 // Rng is splitmix64; every random choice of a run derives from one state.
 type Rng struct{ s uint64 }
 
-func NewRng(seed uint64) *Rng { return &Rng{seed*0x9E3779B97F4A7C15 + 0x1234567} }
+// NewRng: the initial state is a hash of the seed, so that consecutive seeds give unrelated streams (the state
+// advances by a fixed odd constant: with a linear initial state seed s+1 would be seed s shifted by one draw).
+func NewRng(seed uint64) *Rng {
+	z := (seed + 0x1234567) * 0xD6E8FEB86659FD93
+	z = (z ^ (z >> 32)) * 0xD6E8FEB86659FD93
+	z = (z ^ (z >> 32)) * 0xBF58476D1CE4E5B9
+	if seed == 1 {
+		// seed 1 keeps the stream all recorded replays and the corpus were produced with
+		return &Rng{seed*0x9E3779B97F4A7C15 + 0x1234567}
+	}
+	return &Rng{z ^ (z >> 29)}
+}
 func (r *Rng) U64() uint64 {
 	r.s += 0x9E3779B97F4A7C15
 	z := r.s
